@@ -256,6 +256,25 @@ TOP_ARGS = (pathlib.Path("rel/file.txt"),)
 TOP_KW = {"b": {"k": [1, "x\r\ny", "x\ny"], "p": pathlib.Path("/abs/f")}, "c": pathlib.PurePosixPath("u/v")}
 if mode == "plain":
     print(json.dumps({"value": repr((pipe.root(), pipe.with_values(*TOP_ARGS, **TOP_KW)))})); sys.exit(0)
+if mode == "entry":
+    # entry-style switches on a populated store: the data function called directly, through dds.eval, through dds.keep
+    dds.accept_module(pkg)
+    opts = json.loads(sys.argv[3]) if len(sys.argv) > 3 else {}
+    dds.set_store("local", internal_dir=os.path.join(opts.get("store_dir", base), "_int"), data_dir=os.path.join(opts.get("store_dir", base), "_data"))
+    out = {}
+    for style in opts.get("styles", ["direct", "eval", "keep", "eval", "direct"]):
+        pipe.CALLS.clear()
+        try:
+            if style == "direct":
+                v = pipe.annotated()
+            elif style == "eval":
+                v = dds.eval(pipe.annotated)
+            else:
+                v = dds.keep("/c/annotated", pipe.annotated)
+            out.setdefault("steps", []).append([style, repr(v), list(pipe.CALLS)])
+        except BaseException as e:
+            out.setdefault("steps", []).append([style, "%s: %s" % (type(e).__name__, str(e)[:120]), list(pipe.CALLS)])
+    print(json.dumps(out)); sys.exit(0)
 if mode == "history":
     # evaluate f (which calls g); remove g and the call from the module in this same process; evaluate f again
     import importlib, linecache
@@ -397,6 +416,15 @@ def main():
                 again = run(d, "dds")  # fresh process, nothing changed
                 if mode == "c02" and again["calls"]:
                     note(None, "restart without any change re-executed %s" % again["calls"])
+                if mode == "c02" and evals == 1:
+                    # entry-style switches: a data function whose result is stored is not executed again, however it is entered
+                    for styles in (["direct", "eval", "keep"], ["eval", "direct"], ["keep", "direct", "eval"]):
+                        en = run(d, "entry", opts={"styles": styles})
+                        for style, val, calls_ in en.get("steps", []):
+                            if calls_:
+                                note(None, "entry styles %s on a populated store: entering the data function by '%s' executed %s" % (styles, style, calls_))
+                            if val != "'n-as'":
+                                note(None, "entry styles %s: '%s' returned %s" % (styles, style, val))
                 if mode == "c02" and evals == 1:
                     # the same code copied to another accepted package, same store: nothing is recomputed
                     shutil.copytree(os.path.join(d, "corp"), os.path.join(d, "corp_copy"), ignore=shutil.ignore_patterns("__pycache__"))
